@@ -226,5 +226,40 @@ U(id="vm.op.return", entry="h_vo_return", defines=["-DVO_RETURN"], link_keep={"f
   mutants=[M("returns-slot-A", "    VM_OP(JOP_RETURN) {\n        Janet retval = stack[D];", "    VM_OP(JOP_RETURN) {\n        Janet retval = stack[A];", "value returned"),
            M("nil-return-not-nil", "    VM_OP(JOP_RETURN_NIL) {\n        Janet retval = janet_wrap_nil();", "    VM_OP(JOP_RETURN_NIL) {\n        Janet retval = stack[0];", "value returned")])
 
+
+# ---------------------------------------------------------------- group 6: argument lists and literals
+A_FIBER = "fiber.c's push functions append their arguments in order at the end of the argument area and may move the whole stack to a bigger block (C05 fiber.push units); the stubs do exactly that, with and without moving"
+PUSH_STUBS = ["janet_fiber_push:vo_push_stub", "janet_fiber_push2:vo_push2_stub", "janet_fiber_push3:vo_push3_stub", "janet_fiber_pushn:vo_pushn_stub", "janet_indexed_view:vo_indexed_view_stub"]
+REFRESH = "    stack = fiber->data + fiber->frame;\n    vm_checkgc_pcnext();\n\n    VM_OP(%s)"
+for n, op, nxt, args in [(1, "JOP_PUSH", "JOP_PUSH_2", "janet_fiber_push(fiber, stack[D]);"), (2, "JOP_PUSH_2", "JOP_PUSH_3", "janet_fiber_push2(fiber, stack[A], stack[E]);"), (3, "JOP_PUSH_3", "JOP_PUSH_ARRAY", "janet_fiber_push3(fiber, stack[A], stack[B], stack[C]);")]:
+    swapped = {1: "janet_fiber_push(fiber, stack[A]);", 2: "janet_fiber_push2(fiber, stack[E], stack[A]);", 3: "janet_fiber_push3(fiber, stack[A], stack[C], stack[B]);"}[n]
+    U(id="vm.op.push%d" % n, entry="h_vo_push", defines=["-DVO_PUSH=%d" % n], replace_calls=STUBS + PUSH_STUBS, assumes=[A_FIBER],
+      clause="%s: the operand values are appended to the fiber's argument area in operand order, unchanged (one push of width %d); the interpreter goes on with the stack block fiber.c left (also when it was moved); no slot changes; next instruction" % (op, n),
+      mutants=[M("stack-not-refreshed", "    %s\n" % args + REFRESH % nxt, "    %s\n" % args + (REFRESH % nxt).replace("    stack = fiber->data + fiber->frame;\n", ""), "live stack block"),
+               M("operands-wrong", args, swapped, "operand order")])
+U(id="vm.op.push.array", entry="h_vo_push_array", defines=["-DVO_PUSH=4"], replace_calls=STUBS + PUSH_STUBS,
+  assumes=[A_FIBER, "janet_indexed_view answers whether the value is an array or tuple and yields its elements (util.c)"],
+  clause="JOP_PUSH_ARRAY: the elements of the array or tuple in slot D are appended to the argument area, all of them in order (one block push of exactly the viewed elements); any other operand raises; no slot changes; next instruction",
+  mutants=[M("length-minus-one", "janet_fiber_pushn(fiber, vals, len);", "janet_fiber_pushn(fiber, vals, len - 1);", "viewed elements"),
+           M("stack-not-refreshed", "    }\n    stack = fiber->data + fiber->frame;\n    vm_checkgc_pcnext();\n\n    VM_OP(JOP_CALL)", "    }\n    vm_checkgc_pcnext();\n\n    VM_OP(JOP_CALL)", "live stack block")])
+MAKE_STUBS = ["janet_array_n:vo_array_n_stub", "janet_tuple_n:vo_tuple_n_stub", "janet_table:vo_table_stub", "janet_table_put:vo_table_put_stub", "janet_struct_begin:vo_struct_begin_stub",
+              "janet_struct_put:vo_struct_put_stub", "janet_struct_end:vo_struct_end_stub", "janet_buffer:vo_buffer_stub", "janet_buffer_init:vo_buffer_init_stub", "janet_buffer_deinit:vo_buffer_deinit_stub",
+              "janet_to_string_b:vo_to_string_b_stub", "janet_string:vo_string_stub"]
+A_MAKE = "the constructors (janet_array_n, janet_tuple_n, janet_table/janet_table_put, janet_struct_begin/put/end, janet_buffer, janet_buffer_init/deinit, janet_to_string_b, janet_string) build the value from what they are given (C03/C04/C17 units); here they record their arguments"
+MK = [(1, "array", "JOP_MAKE_ARRAY", "a new array of the arguments in order", [M("count-minus-one", "stack[D] = janet_wrap_array(janet_array_n(mem, count));", "stack[D] = janet_wrap_array(janet_array_n(mem, count - 1));", "all of it"),
+                                                                      M("args-not-consumed", "        stack[D] = janet_wrap_array(janet_array_n(mem, count));\n        fiber->stacktop = fiber->stackstart;", "        stack[D] = janet_wrap_array(janet_array_n(mem, count));", "ends where documented")]),
+      (2, "tuple", "JOP_MAKE_TUPLE", "a new (parenthesised) tuple of the arguments in order", [M("always-bracket", "        if (opcode == JOP_MAKE_BRACKET_TUPLE)\n            janet_tuple_flag(tup)", "        if (opcode != JOP_NOOP)\n            janet_tuple_flag(tup)", "bracket")]),
+      (3, "btuple", "JOP_MAKE_BRACKET_TUPLE", "a new bracket tuple of the arguments in order", [M("never-bracket", "        if (opcode == JOP_MAKE_BRACKET_TUPLE)\n            janet_tuple_flag(tup)", "        if (opcode == JOP_MAKE_TUPLE)\n            janet_tuple_flag(tup)", "bracket")]),
+      (4, "table", "JOP_MAKE_TABLE", "a new table with the pairs (argument 2i, argument 2i+1) put in order; an odd argument count raises", [M("key-value-swapped", "janet_table_put(table, mem[i], mem[i + 1]);", "janet_table_put(table, mem[i + 1], mem[i]);", "key, value"),
+                                                                      M("odd-check-dropped", "        JanetTable *table = janet_table(count / 2);", "        count &= ~1;\n        JanetTable *table = janet_table(count / 2);", "odd number|bounds|dereference") ]),
+      (5, "struct", "JOP_MAKE_STRUCT", "a new struct with the pairs (argument 2i, argument 2i+1) put in order; an odd argument count raises", [M("last-pair-skipped", "        for (int32_t i = 0; i < count; i += 2)\n            janet_struct_put(st, mem[i], mem[i + 1]);", "        for (int32_t i = 2; i < count; i += 2)\n            janet_struct_put(st, mem[i], mem[i + 1]);", "per pair|argument order")]),
+      (6, "string", "JOP_MAKE_STRING", "a new string: the text of every argument, appended in order", [M("reverse-order", "        for (int32_t i = 0; i < count; i++)\n            janet_to_string_b(&buffer, mem[i]);", "        for (int32_t i = 0; i < count; i++)\n            janet_to_string_b(&buffer, mem[count - 1 - i]);", "argument order")]),
+      (7, "buffer", "JOP_MAKE_BUFFER", "a new buffer: the text of every argument, appended in order", [M("first-skipped", "        for (int32_t i = 0; i < count; i++)\n            janet_to_string_b(buffer, mem[i]);", "        for (int32_t i = 1; i < count; i++)\n            janet_to_string_b(buffer, mem[i]);", "appended once|argument order")])]
+for n, key, op, doc, muts in MK:
+    U(id="vm.op.make." + key, entry="h_vo_make", defines=["-DVO_MAKE", "-DVO_MK=%d" % n], replace_calls=STUBS + MAKE_STUBS, assumes=[A_MAKE],
+      bound=BOUND + "; the argument area holds 0..4 values (symbolic count)",
+      clause="%s: the destination slot (24-bit register D) receives %s, taken from the fiber's argument area data[stackstart..stacktop); the argument area is empty afterwards; no other slot changes; next instruction" % (op, doc),
+      mutants=muts)
+
 json.dump({"units": units}, open(os.path.join(V, 'units', 'C15_vm.json'), 'w'), indent=1)
 print('%d units' % len(units))
